@@ -32,6 +32,8 @@
  *                                                                           *
 \*===========================================================================*/
 
+#include <set>
+
 #include <OpenVolumeMesh/Mesh/TetrahedralMeshTopologyKernel.hh>
 
 #include <iostream>
@@ -86,6 +88,23 @@ TetrahedralMeshTopologyKernel::add_cell(std::vector<HalfFaceHandle> _halffaces, 
         if (n_halfedges != 3) {
 #ifndef NDEBUG
             std::cerr << "TetrahedralMeshTopologyKernel::add_cell(): Incident face " << hfh.idx() << " does not have valence three: " << n_halfedges << "; not adding cell." << std::endl;
+#endif
+            return TopologyKernel::InvalidCellHandle;
+        }
+    }
+    {
+        // A tetrahedron has four distinct vertices: four triangles that pass the halfedge-level
+        // topology check need not (e.g. two faces, each given with both of its halffaces).
+        std::set<VertexHandle> vertices;
+        for(const auto &hfh: _halffaces) {
+            for(const auto &heh: TopologyKernel::halfface(hfh).halfedges()) {
+                vertices.insert(TopologyKernel::halfedge(heh).from_vertex());
+                vertices.insert(TopologyKernel::halfedge(heh).to_vertex());
+            }
+        }
+        if(vertices.size() != 4) {
+#ifndef NDEBUG
+            std::cerr << "TetrahedralMeshTopologyKernel::add_cell(): The halffaces span " << vertices.size() << " vertices instead of four; not adding cell." << std::endl;
 #endif
             return TopologyKernel::InvalidCellHandle;
         }
